@@ -33,7 +33,7 @@ Lemma fill_ledger_ok cp balance r t dir n l d left l' dl :
 Proof.
   intros Hdir Hf Hleft [Hpos Hcap].
   destruct (fill_spec (cp r) balance r t dir Hdir _ _ _ _ _ _ Hf Hleft) as [new R].
-  destruct R as [Ra Rr Rs Rl Rn Rc Rt]. exists new. split; [exact Ra|]. split.
+  destruct R as [Ra Rr Rs Rl Rn Rc Rf Rt]. exists new. split; [exact Ra|]. split.
   { destruct Rl as [x [rest [-> _]]]. discriminate. }
   assert (Hrows : forall x, In x new -> r_res x = r /\ r_task x = t /\ 0 < r_units x).
   { intros x Hx. destruct (Rr x Hx) as [A [B [C _]]]. auto. }
